@@ -2,7 +2,7 @@
 side and keys are only touched through comparisons)."""
 from .common import *
 from . import mirror
-from .c03 import return_alts, is_err_path, r5_wrappers
+from .c03 import return_alts, is_err_path, r5_wrappers, r3_reset
 from .c01 import r7_mirror
 
 PID = "C04"
@@ -32,6 +32,7 @@ def run(ck):
         # the single steps both iterators take across block boundaries (shared with C03-R5 / C01-R7)
         ck.guard("C04-R6", r5_wrappers, ck, F, "C04-R6")
         ck.guard("C04-R6", r7_mirror, ck, F, "C04-R6")
+        ck.guard("C04-R6", r3_reset, ck, F, "C04-R6")
     ck.exhaustive = True
     ck.trusted += ["rustc MIR construction", "core::cmp slice ordering", "std::ops::Bound / RangeBounds for (Bound<T>, Bound<T>)"]
 
